@@ -164,6 +164,11 @@ pub enum Variant {
     /// where the parent runs this step and the frame is entered as `travel` says; the guard is
     /// dropped at the end of the body or completed with `complete_with(completion::default(..))`.
     Manual { travel: Travel, when: bool, complete_with: bool },
+    /// `#[emit::span(rt, setup: <fn>, "node {id}", id, en)]` (`level`: 0 = `span`, 1 = the
+    /// level-named attribute): `setup` runs BEFORE the span is created and returns a guard that is
+    /// dropped when the fn returns. `header: Some(..)`: the guard pushes AND enters that incoming
+    /// traceparent; `None`: a guard that touches no ambient state (control).
+    Setup { header: Option<HeaderSpec>, level: u8 },
 }
 
 #[derive(Clone, Debug, PartialEq, Eq, Hash)]
@@ -354,6 +359,15 @@ impl Node {
             Variant::ResultAware { fail: true } => b'E',
             Variant::Guard(GuardEnd::Complete) => b'g',
             Variant::Guard(GuardEnd::CompleteWith) => b'G',
+            Variant::Setup { header, level } => {
+                0x40 + level * 8
+                    + match header {
+                        None => 0,
+                        Some(HeaderSpec::Fresh { flags, .. }) => 1 + (flags & 1),
+                        Some(HeaderSpec::Invalid { flags }) => 3 + (flags & 1),
+                        Some(HeaderSpec::SameTrace { .. }) => 5,
+                    }
+            }
             Variant::Manual { travel, when, complete_with } => {
                 let t = match travel {
                     Travel::Here => 0u8,
@@ -465,6 +479,7 @@ struct Profile {
     p_plain: u64,
     p_ending: u64,
     p_catch: u64,
+    p_setup: u64,
 }
 
 struct Gen<'a> {
@@ -520,10 +535,14 @@ impl<'a> Gen<'a> {
         self.next_id += 1;
         let id = self.next_id;
         let mut steps = self.steps(depth, false, false, false);
+        let tp = self.cfg.traceparent;
         if depth < self.cfg.max_depth + 2 && self.g.chance(7, 16) {
             let via = match self.g.below(4) {
                 0 => Via::Direct,
                 1 => Via::Plain { how: PlainHow::Call },
+                // (the panic crosses the thread boundary through `join` + `resume_unwind`)
+                2 if !tp => Via::Plain { how: PlainHow::Thread },
+                3 if !tp => Via::Direct,
                 _ => {
                     let sampled = self.g.bool();
                     Via::Header {
@@ -546,14 +565,20 @@ impl<'a> Gen<'a> {
         }
         Node {
             id,
-            enabled: true,
+            enabled: tp || !self.g.chance(self.p.p_disabled, 16),
             is_async: false,
-            variant: if self.g.chance(1, 4) {
-                Variant::ResultAware { fail: false }
-            } else if self.g.chance(1, 4) {
-                Variant::Guard(GuardEnd::CompleteWith)
-            } else {
-                Variant::RtFilter
+            variant: match self.g.below(if tp { 8 } else { 12 }) {
+                0 | 1 => Variant::ResultAware { fail: false },
+                2 => Variant::Guard(GuardEnd::CompleteWith),
+                3 => Variant::Guard(GuardEnd::Complete),
+                8 | 9 => Variant::When,
+                // guard-based `new_span!` + `frame.call`
+                10 | 11 => Variant::Manual {
+                    travel: Travel::Here,
+                    when: self.g.bool(),
+                    complete_with: self.g.bool(),
+                },
+                _ => Variant::RtFilter,
             },
             steps,
             unwinds: true,
@@ -576,6 +601,36 @@ impl<'a> Gen<'a> {
             Variant::When
         } else {
             Variant::RtFilter
+        };
+        // the span's context established by the macro's `setup:` parameter (C18)
+        let setup = tp && variant == Variant::RtFilter && self.g.chance(self.p.p_setup, 16);
+        let variant = if setup {
+            let g = &mut *self.g;
+            let header = match g.below(8) {
+                0 => None,
+                1 | 2 => Some(HeaderSpec::Fresh {
+                    trace: rand_trace(g),
+                    span: rand_span(g),
+                    flags: rand_flags(g, true),
+                }),
+                3 | 4 => Some(HeaderSpec::Fresh {
+                    trace: rand_trace(g),
+                    span: rand_span(g),
+                    flags: rand_flags(g, false),
+                }),
+                5 => Some(HeaderSpec::Invalid { flags: 0 }),
+                6 => Some(HeaderSpec::Invalid { flags: 1 }),
+                _ => Some(HeaderSpec::SameTrace {
+                    span: rand_span(g),
+                    flags: if g.chance(1, 3) { Some(g.below(2) as u8) } else { None },
+                }),
+            };
+            Variant::Setup {
+                header,
+                level: g.below(2) as u8,
+            }
+        } else {
+            variant
         };
         // other ways for the span to end / to be created
         let variant = if variant != Variant::RtFilter && variant != Variant::When || !self.g.chance(self.p.p_ending, 16) {
@@ -620,7 +675,36 @@ impl<'a> Gen<'a> {
                 ..
             }
         );
-        let steps = self.steps(depth, is_async, false, takes_deferred);
+        let mut steps = self.steps(depth, is_async, false, takes_deferred);
+        if is_async && matches!(variant, Variant::Setup { .. }) {
+            // The guard returned by `setup` stays alive (and its header entered on this thread) for
+            // the whole call, across every await: such a fn must not yield to an executor that runs
+            // other tasks on the thread. So its body never yields: no yield steps, and its direct
+            // children are synchronous (whatever is below them runs under nested `block_on`s).
+            let mut flat = Vec::new();
+            for s in steps.drain(..) {
+                match s {
+                    Step::Yield => {}
+                    Step::Group { nodes, .. } => {
+                        for n in nodes {
+                            flat.push(Step::Child { node: n, via: Via::Direct });
+                        }
+                    }
+                    other => flat.push(other),
+                }
+            }
+            for s in flat.iter_mut() {
+                if let Step::Child { node, .. } = s {
+                    node.is_async = false;
+                    if let Variant::Manual { travel, .. } = &mut node.variant {
+                        if *travel == Travel::Task {
+                            *travel = Travel::Here;
+                        }
+                    }
+                }
+            }
+            steps = flat;
+        }
         Node {
             id,
             enabled,
@@ -753,7 +837,7 @@ impl<'a> Gen<'a> {
             } else {
                 left -= 1;
                 self.budget -= 1;
-                if self.cfg.traceparent && self.g.chance(self.p.p_catch, 16) {
+                if self.g.chance(self.p.p_catch, 16) {
                     let node = self.panic_chain(depth + 1);
                     steps.push(Step::Child { node, via: Via::Catch });
                     continue;
@@ -797,7 +881,8 @@ pub fn gen_tree(g: &mut Rng, cfg: &GenCfg) -> Node {
         // (not drawn for the trace-context generator, whose trees stay what they were)
         p_plain: if cfg.traceparent { 0 } else { *g.pick(&[0u64, 2, 4]) },
         p_ending: *g.pick(&[0u64, 3, 5, 8]),
-        p_catch: if cfg.traceparent { *g.pick(&[0u64, 2, 3, 5]) } else { 0 },
+        p_catch: if cfg.traceparent { *g.pick(&[0u64, 2, 3, 5]) } else { *g.pick(&[0u64, 1, 2, 4]) },
+        p_setup: if cfg.traceparent { *g.pick(&[0u64, 2, 4]) } else { 0 },
     };
     let budget = 1 + g.below(cfg.max_nodes as u64) as u32;
     let mut gen = Gen {
@@ -940,7 +1025,8 @@ pub fn with_tree<R>(cx: &TreeCx, f: impl FnOnce() -> R) -> R {
     }
     let prev = CURRENT.with(|c| c.borrow_mut().replace(cx.clone()));
     let _restore = Restore(prev);
-    f()
+    // (scripted panics cross threads; whatever panics is reported through the tree's result)
+    vcommon::quiet(f)
 }
 
 fn current_tree() -> Option<TreeCx> {
@@ -1310,6 +1396,61 @@ async fn span_async_guard<X: Env>(id: u32, en: bool, end: &GuardEnd, node: &Node
     }
 }
 
+// --- `setup:` ------------------------------------------------------------------------
+
+/// What a `setup:` fn returns: an incoming traceparent pushed AND entered, exited on drop.
+pub struct EnteredHeader {
+    ctxt: emit_traceparent::TraceparentCtxt,
+    frame: Option<emit_traceparent::TraceparentCtxtFrame>,
+}
+
+impl Drop for EnteredHeader {
+    fn drop(&mut self) {
+        if let Some(mut frame) = self.frame.take() {
+            self.ctxt.exit(&mut frame);
+            self.ctxt.close(frame);
+        }
+    }
+}
+
+/// The `setup` of a `Variant::Setup` node.
+pub fn node_setup(node: &Node, cx: &TreeCx) -> Option<EnteredHeader> {
+    match &node.variant {
+        Variant::Setup { header: Some(spec), .. } => {
+            let tp = build_header(spec);
+            cx.0.headers.lock().unwrap().push((node.id, u16::MAX, tp));
+            let (ctxt, mut frame) = tp.to_traceparent().push().into_parts();
+            ctxt.enter(&mut frame);
+            Some(EnteredHeader {
+                ctxt,
+                frame: Some(frame),
+            })
+        }
+        // a guard that touches no ambient state
+        _ => None,
+    }
+}
+
+#[emit::span(rt: *X::rt(), setup: (|| node_setup(node, cx)), "node {id}", id, en)]
+fn span_sync_setup<X: Env>(id: u32, en: bool, node: &Node, cx: &TreeCx) {
+    body_sync::<X>(node, cx)
+}
+
+#[emit::info_span(rt: *X::rt(), setup: (|| node_setup(node, cx)), "node {id}", id, en)]
+fn span_sync_setup_info<X: Env>(id: u32, en: bool, node: &Node, cx: &TreeCx) {
+    body_sync::<X>(node, cx)
+}
+
+#[emit::span(rt: *X::rt(), setup: (|| node_setup(node, cx)), "node {id}", id, en)]
+async fn span_async_setup<X: Env>(id: u32, en: bool, node: &Node, cx: &TreeCx) {
+    body_async::<X>(node, cx).await
+}
+
+#[emit::warn_span(rt: *X::rt(), setup: (|| node_setup(node, cx)), "node {id}", id, en)]
+async fn span_async_setup_warn<X: Env>(id: u32, en: bool, node: &Node, cx: &TreeCx) {
+    body_async::<X>(node, cx).await
+}
+
 // --- `new_span!` pairs whose frame is entered away from where it was created -------
 
 /// `emit::new_span!` for a `Variant::Manual` node, evaluated right here.
@@ -1419,6 +1560,8 @@ fn run_sync<X: Env>(node: &Node, cx: &TreeCx) {
             let _ = span_sync_result::<X>(node.id, node.enabled, *fail, node, cx);
         }
         Variant::Guard(end) => span_sync_guard::<X>(node.id, node.enabled, end, node, cx),
+        Variant::Setup { level: 0, .. } => span_sync_setup::<X>(node.id, node.enabled, node, cx),
+        Variant::Setup { .. } => span_sync_setup_info::<X>(node.id, node.enabled, node, cx),
         Variant::Manual { travel, .. } => match travel {
             Travel::Here | Travel::Task => {
                 let (guard, frame) = new_manual::<X>(node);
@@ -1451,6 +1594,8 @@ fn run_async<'a, X: Env>(node: &'a Node, cx: &'a TreeCx) -> BoxFut<'a> {
                 let _ = span_async_result::<X>(node.id, node.enabled, *fail, node, cx).await;
             }
             Variant::Guard(end) => span_async_guard::<X>(node.id, node.enabled, end, node, cx).await,
+            Variant::Setup { level: 0, .. } => span_async_setup::<X>(node.id, node.enabled, node, cx).await,
+            Variant::Setup { .. } => span_async_setup_warn::<X>(node.id, node.enabled, node, cx).await,
             // (their bodies run under a nested `block_on` inside the frame)
             Variant::Manual { .. } => run_sync::<X>(node, cx),
             Variant::Top => body_async::<X>(node, cx).await,
